@@ -68,6 +68,14 @@ strengthened = {
     "C08-h": "C08: spawners of groups cancelled before the call (even in the same tick) have to be over when gather_and_close() returns - this found defect D15 in the unchanged code",
     "C12-h": "C12: new clause must_raise - flush() / gather_and_close() without return_exceptions returning normally although a task they still remembered had failed",
     "C18-h": "C18: 'pool-size -N' among the lines that must change nothing; scenarios in which the pool was shrunk below what is running before the clients arrive",
+    "C04-i": "functions given as callable objects marked as coroutine functions, and partials of such objects (named requests)",
+    "C06-i": "new 'eager' family (vf/eager.py, also for C10 and C11): a small schedule-independent world under asyncio.eager_task_factory - unique / dense ids, group membership, exact delivery of cancel / cancel_group, counts, the close - with workers that use the pool in their synchronous prologue",
+    "C08-i": "environment: every fifth execution installs an ordinary (lazy) custom task factory on the loop (widened from the agents' reports before this seed was run)",
+    "C10-i": "the 'eager' family of C06-i (map / starmap / doublestarmap under the eager task factory: group membership)",
+    "C13-i": "workers may await flush() of their own pool inline (a housekeeping task): a cancellation of such a worker has to be delivered (new clause C13.running_cancellable), the flush counts as abandoned; sweep base with workers that request + cancel a group and then flush inline",
+    "C16-i": "subclasses define a public method with a Callable[[int], None] parameter (a hook that returns nothing)",
+    "C17-i": "the texts 'None' and 'True' as values of text parameters",
+    "C18-i": "C18: a request and cancel-all pipelined in one segment (the spawner is cancelled before its first step), followed at some point by flush / gather-and-close without -r",
     "C08-e": "C08: pool_size assignments in the C08 generator (while tasks are inside callbacks)",
     "C13-e": "C13: new 'server' family - a session's pending flush plus the program's own flush while the control server is stopped; pool generator: flush calls whose caller gives up (cancelled flush) are modelled",
     "C14-e": "C14: exact oracle for stop()/stop_all() also when tasks cancelled before their first step are around (was lenient there)",
